@@ -224,8 +224,21 @@ def gen_scenario(rng: random.Random) -> list[list[str]]:
         return f"Mark: s{u[0]}"
     w1 = rng.choice([0.2, 0.3, 0.5, 0.8])
     w2 = rng.choice([0.2, 0.4, 1.0])
-    k = rng.randrange(16)
-    if k in (13, 14, 15):
+    k = rng.randrange(18)
+    if k in (16, 17):
+        # a chain of macros called once, then a redefinition at the end of the chain closes a cycle, then called again
+        names = ["RA", "RB", "RC", "RD"][:rng.choice([2, 3, 3, 4])]
+        lines = []
+        for i, nm in enumerate(names):
+            lines += [f"Macro: {nm}", "    " + m()]
+            if i + 1 < len(names):
+                lines += [f"    Call macro: {names[i + 1]}"]
+            if rng.random() < 0.4:
+                lines += ["    " + m()]
+        first = names[0] if k == 16 else rng.choice(names[:-1])
+        lines += [f"Call macro: {first}", m(), f"Macro: {names[-1]}", "    " + m(), f"    Call macro: {rng.choice(names[:-1])}",
+                  f"Call macro: {first}", m()]
+    elif k in (13, 14, 15):
         # a multi-tick command in a body that runs again while (or just when) the previous invocation's command ends
         cmd = rng.choice(["LongA", "LongB", "LongC", "Ramp"])
         n = rng.randint(2, 12)
